@@ -52,7 +52,7 @@ Proof.
   intros (H1 & H2 & H3 & H3b & H4 & H5) Hne Hres.
   unfold file_result, spec_file. cbn [f_given f_lang f_raw s_rel s_lang s_raw g_parts].
   rewrite (true_rel_ok _ _ _ _ Hres), (name_of_app _ _ Hne).
-  unfold orch_ignored, rule_ignored, fp_path. rewrite H1, H2, H3, H3b, H4, H5.
+  unfold orch_ignored, rule_ignored, fp_path. rewrite H1, H2, H3, H3b, H4, H5. cbn [andb].
   destruct (hard_excluded rel (name_of rel)); [reflexivity|].
   destruct (repo_ignored (e_root_pats e) (unrooted rel) rel); [reflexivity|].
   rewrite andb_false_r. destruct (cs_ikind sg); reflexivity.
@@ -212,9 +212,9 @@ Proof.
   unfold file_result, spec_file. cbn [f_given f_lang f_raw s_rel s_lang s_raw g_parts].
   assert (Hrel : true_rel e (GP true (lead ++ rel)) = rel) by (apply true_rel_ok; now rewrite Hroot).
   rewrite Hrel, (name_of_app _ _ Hne).
-  assert (HX : hard_excluded (if q_excl_all_parts q then all_parts (GP true (lead ++ rel)) else rel) (name_of rel)
+  assert (HX : hard_excluded (if q_excl_all_parts q && scope_given hard_exclusion_scope then all_parts (GP true (lead ++ rel)) else rel) (name_of rel)
                = hard_excluded rel (name_of rel)).
-  { destruct (q_excl_all_parts q); [|reflexivity]. rewrite hard_excluded_given, Hex. apply orb_false_r. }
+  { destruct (q_excl_all_parts q && scope_given hard_exclusion_scope); [|reflexivity]. rewrite hard_excluded_given, Hex. apply orb_false_r. }
   rewrite HX. destruct (hard_excluded rel (name_of rel)); [reflexivity|].
   assert (HV : parser_view (e_root e) (GP true (lead ++ rel)) = (unrooted rel, rel))
     by (rewrite Hroot; apply parser_view_abs_under_root).
@@ -243,6 +243,25 @@ Proof.
   - rewrite HT, HR. destruct (q_linter_ignore_full_path q); [|reflexivity].
     rewrite (linter_ignored_abs IFnmatchOrSubstr _ _ _ Hne Hpc); [reflexivity|discriminate].
   - rewrite HF. reflexivity.
+Qed.
+
+Lemma find_sig_in n sg : find_sig n = Some sg -> In sg command_sigs.
+Proof. unfold find_sig. intros H. apply find_some in H. exact (proj1 H). Qed.
+
+(* for the commands found in the source the marker lists need no hypothesis: they are slash-simple by computation *)
+Corollary confinement_absolute_cmd q e n sg cfg lead rel lg raw :
+  find_sig n = Some sg ->
+  rel <> [] -> e_root e = lead ->
+  resolve (e_cwd e) (GP true (lead ++ rel)) = (lead ++ rel)%list ->
+  existsb excl_comp lead = false ->
+  pats_clean (cs_ikind sg) (ignore_pats sg cfg) (rooted lead ++ String slash "") rel = true ->
+  any_sub (t_str_contains (tspec_of sg lg)) (rooted lead ++ String slash "") = false ->
+  (cs_cwd_parser sg = false \/ list_eqb (e_cwd e) (e_root e) = true \/ e_cwd_pats e = []) ->
+  file_result q e sg cfg {| f_given := GP true (lead ++ rel); f_lang := lg; f_raw := raw |}
+  = spec_file (e_root_pats e) sg cfg {| s_rel := rel; s_lang := lg; s_raw := raw |}.
+Proof.
+  intros Hf Hne Hroot Hres Hex Hpc Htc Hcwd.
+  apply confinement_absolute; try assumption. apply gen_tspec_simple. exact (find_sig_in _ _ Hf).
 Qed.
 
 (* the same for the project-relative spelling from the project directory (`.`, `src/a.py`): nothing leads the path,
@@ -290,7 +309,8 @@ Proof.
   assert (Hrel : true_rel e (GP false rel) = rel).
   { unfold true_rel. rewrite Hres, strip_prefix_app. reflexivity. }
   rewrite Hrel.
-  assert (HX : (if q_excl_all_parts q then all_parts (GP false rel) else rel) = rel) by (destruct (q_excl_all_parts q); reflexivity).
+  assert (HX : (if q_excl_all_parts q && scope_given hard_exclusion_scope then all_parts (GP false rel) else rel) = rel)
+    by (destruct (q_excl_all_parts q && scope_given hard_exclusion_scope); reflexivity).
   rewrite HX. destruct (hard_excluded rel (name_of rel)); [reflexivity|].
   assert (HO : orch_ignored q e (GP false rel) rel = repo_ignored (e_root_pats e) (unrooted rel) rel).
   { unfold orch_ignored. destruct (q_ignore_no_reroot q); reflexivity. }
